@@ -101,7 +101,13 @@ def check(tier, seed):
             good = [it for it in items if not C.guarded(K.impl_pack, *it).startswith('!')]
             body = b''.join(bytes.fromhex(K.impl_pack(*it)) for it in good)
             hdr = bytes([rng.choice([0, 1]), rng.choice([0, 1, 2, 7]), rng.getrandbits(8), rng.getrandbits(8)])
-            mode = rng.choice(['ok', 'ok', 'trunc', 'corrupt', 'tail', 'hdronly'])
+            mode = rng.choice(['ok', 'ok', 'trunc', 'corrupt', 'tail', 'hdronly', 'badpair'])
+            if mode == 'badpair':
+                # a malformed pair (size code 0, 6 or 7 - the all-zero key included - or a 1-bit value > 1) at a pair boundary, more pairs after it
+                enc = [bytes.fromhex(K.impl_pack(*it)) for it in good]
+                bad = rng.choice([bytes(4), bytes(4), bytes(5), b'\x01\x00\x11\x60\x00', b'\x01\x00\x11\x70', b'\x21\x00\x11\x10\x02', b'\x00\x00\x00\x00\x00\x00\x00\x00'])
+                at = rng.randrange(len(enc) + 1)
+                body = b''.join(enc[:at]) + bad + b''.join(enc[at:])
             if mode == 'trunc' and body:
                 body = body[:rng.randrange(len(body))]
             elif mode == 'corrupt' and body:
@@ -118,6 +124,9 @@ def check(tier, seed):
                 res.violation(f'VALGET response decoding raised {impl[1:]} instead of ValueError',
                               {'property': 'C14', 'input': {'payload_hex': C.hexs(data), 'mode': mode}}, 'c14-valget-exn|' + C.hexs(data)[:60])
             cases.append(Case('valget-response', f'valget {sk} {C.hexs(data)}', impl.rstrip(), {'payload_hex': C.hexs(data), 'mode': mode}, kind='valget/' + mode))
+        for _ in range(40 if tier == 'quick' else 1500):
+            cmd, impl, desc = K.keyvalues_case(rng, sorted(kt['consts'].values()))
+            cases.append(Case('valset-from-keyvalues', cmd, impl, desc, kind='valset/from-keyvalues'))
         from ubxlib.cfgkeys import CfgKeyData as CK_
         from ubxlib.ubx_cfg_valget import UbxCfgValGet
         from ubxlib.ubx_cfg_valset import UbxCfgValSetAction
